@@ -20,6 +20,7 @@ pub fn scenario_regime(tier: &str, poor: bool) -> (Life, Bounds) {
         precommits: th,
         horizon: None,
         big: false,
+        tick_faults: false,
     };
     let b = if th {
         Bounds { max_depth: 400, max_faults: 1, wall_cap_s: 700.0, ..Default::default() }
@@ -47,6 +48,7 @@ pub fn scenario_big(tier: &str) -> (Life, Bounds) {
         precommits: false,
         horizon: None,
         big: true,
+        tick_faults: false,
     };
     let b = Bounds { max_depth: 400, max_faults: 1, wall_cap_s: if th { 400.0 } else { 25.0 }, ..Default::default() };
     (Life { cfg }, b)
